@@ -946,7 +946,7 @@ def function_arguments(ctx, res, binary=None, env=None, sanitizer=False):
     if jl is None:
         keep, hanging = [], 0
         for x in pick:
-            if x[0] == 'justify' and x[2] and max(x[2]) >= 2 ** 31 - 1:
+            if x[0] == 'justify' and x[2] and any(abs(v_) >= 2 ** 31 - 1 for v_ in x[2]):
                 hanging += 1
                 if hanging > 1:
                     continue
